@@ -340,6 +340,23 @@ def check_bqm(ctx, r, lines, expect, meta):
     expect.append('ok ' + ratl(doc['linear_biases']) + ' '
                   + (';'.join(f'{a}:{b}:{rat(c)}' for a, b, c in zip(doc['quadratic_head'], doc['quadratic_tail'], doc['quadratic_biases'])) or '-'))
     meta.append(('BQM.to_serializable vectors', src))
+    # the tuple `cyBQM.__reduce__` hands to pickle (`DimodModel/PickleReduce.lean`): callable, vectors, vartype, labels
+    if type(bqm.data).__name__.startswith('cyBQM'):
+        fn, args = bqm.data.__reduce__()
+        ld, (ir, ic, qd), off_, vt_, labels_ = args
+        ctx.tick('bqm __reduce__ tuple'); ctx.case(('bqm reduce', src), nontrivial=len(labs) > 0)
+        rebuilt = fn(*args)
+        if (getattr(fn, '__name__', '') != 'from_numpy_vectors' or vt_ is not bqm.vartype or F(float(off_)) != F(float(bqm.offset)) or sorted(map(repr, labels_)) != sorted(map(repr, labs))
+                or {v: F(float(rebuilt.get_linear(v))) for v in rebuilt.variables} != {v: F(float(bqm.get_linear(v))) for v in labs}
+                or {frozenset((u, v)): F(float(b)) for u, v, b in rebuilt.iter_quadratic()} != {frozenset((u, v)): F(float(b)) for u, v, b in bqm.iter_quadratic()}):
+            ctx.fail('property', 'BQM pickle', 'the __reduce__ tuple', f'`fn(*args)` of `bqm.data.__reduce__()` does not rebuild the model: {args!r}',
+                     repro=PRE + src + '\nfn, args = bqm.data.__reduce__()\nnew = dimod.BinaryQuadraticModel(bqm.vartype); new.data = fn(*args)\nassert bqm_table(new) == bqm_table(bqm), args', detail=dict(source=src))
+        else:
+            rorder = [labs.index(v) for v in labels_]
+            lines.append('cyreduce ' + (','.join(map(str, rorder)) or '-') + ' ' + ratl(lin) + ' ' + (';'.join(f'{a}:{b}:{rat(c)}' for a, b, c in quad) or '-'))
+            expect.append('ok ' + ratl(ld) + ' ' + (';'.join(f'{a}:{b}:{rat(c)}' for a, b, c in zip(ir.tolist(), ic.tolist(), qd.tolist())) or '-')
+                          + ' ' + (','.join(map(str, rorder)) or '-'))
+            meta.append(('cyBQM.__reduce__ vectors', src))
     # the label order of the document is the sorted one whenever the labels are mutually comparable
     try:
         comparable = all((a < b) or True for a in labs for b in labs)
